@@ -8,6 +8,10 @@ pub use local_client::LocalClient;
 pub use remote_client::RemoteClient;
 
 pub use crate::error::CasClientError;
+// verification hook: the two supertraits of `Client` that are not exported otherwise, so that a
+// wrapping `Client` (call log / fault injection) can be implemented outside this crate.
+#[cfg(huggingface_xet_core_verif)]
+pub use crate::interface::{RegistrationClient as VerifRegistrationClient, ShardDedupProber as VerifShardDedupProber};
 pub use crate::interface::ShardClientInterface;
 
 mod error;
